@@ -80,6 +80,8 @@ def free_vars(t):
         for c in t['coef']:
             e_vars(c, acc)
     elif k in ('seq', 'multi'):
+        if 'dur' in t:
+            e_vars(t['dur'], acc)
         for s in t['ps']:
             acc |= free_vars(s)
     elif k == 'rep':
@@ -429,7 +431,7 @@ def classify(case, obs):
     if case.get('kind') == 'tdarith':
         # only the structural end-point findings apply (empty first / last part): the scalar does not change durations
         try:
-            bad_int = any(obs['ch'][c]['sint'] != (obs['ch'][c].get('rint') if obs['real'] != 'none' else '0') for c in obs['chans'])
+            bad_int = not case.get('noint') and any(obs['ch'][c]['sint'] != (obs['ch'][c].get('rint') if obs['real'] != 'none' else '0') for c in obs['chans'])
             if bad_int:
                 return None
             bad_ini = obs['real'] != 'none' and any(obs['ch'][c]['sini'] != obs['ch'][c]['r0'] for c in obs['chans'])
@@ -445,8 +447,6 @@ def classify(case, obs):
             return 'negative-duration-empty'
         if any_node(pt, env, arith_over_par):
             return 'arith-over-parallel-order'
-        if any_node(pt, env, mapping_captures):
-            return 'mapping-captures-loop-index'
         if any_atom(pt, env, constant_detection_wrong):
             return 'table-constant-detection'
         bad_int = bad_ini = False
@@ -1235,9 +1235,10 @@ def blind_class_families(tier='thorough'):
 
 
 def capture_family():
-    """finding mapping-captures-loop-index: MappingPT substitutes an outer expression that mentions a name which is
-    ALSO the index of a loop inside the mapped template into that loop's Sum(...) closed form: the bound summation
-    variable captures it (integral and duration; initial/final values substitute the index first and are right)"""
+    """FORMER finding mapping-captures-loop-index (repaired in /repo, round 4: 7d773a1): MappingPT substitutes an outer
+    expression that mentions a name which is ALSO the index of a loop inside the mapped template into that loop's Sum(...)
+    closed form: the bound summation variable captured it (integral and duration; initial/final values substitute the
+    index first and were right).  The model's ELet is capture free, so these cases are now ordinary strict cases."""
     cs = []
     inner = {'k': 'for', 'i': 'i1', 'start': C(0), 'stop': C(3), 'step': C(1),
              'b': {'k': 'const', 'd': C(1), 'vals': {'A': mul(V('i1'), V('a'))}}}
@@ -1249,10 +1250,28 @@ def capture_family():
               'b': {'k': 'const', 'd': mul(V('i1'), V('T')), 'vals': {'A': C(1)}}}
     cs.append({'kind': 'pulse', 'pt': {'k': 'map', 'b': innerd, 'pm': {'T': V('i1')}, 'cm': []}, 'params': {'i1': '2'}, 'pad': '1',
                'src': 'capture', 'shapes': []})
+    # the mapped-in expression is an expression OF the clashing name; a sequence / repetition between mapping and loop;
+    # two stacked mappings (a -> b, b -> i1); the clash under an arithmetic scalar
+    cs.append({'kind': 'pulse', 'pt': {'k': 'map', 'b': inner, 'pm': {'a': add(mul(V('i1'), C(2)), V('b'))}, 'cm': [['A', 'D']]},
+               'params': {'i1': '2', 'b': '1/2'}, 'pad': '1', 'src': 'capture', 'shapes': []})
+    cs.append({'kind': 'pulse', 'pt': {'k': 'map', 'b': {'k': 'seq', 'ps': [{'k': 'rep', 'n': C(2), 'b': inner}, innerd_v()]},
+                                       'pm': {'a': V('i1'), 'T': V('i1')}, 'cm': []},
+               'params': {'i1': '2'}, 'pad': '1', 'src': 'capture', 'shapes': []})
+    cs.append({'kind': 'pulse', 'pt': {'k': 'map', 'b': {'k': 'map', 'b': inner, 'pm': {'a': V('b')}, 'cm': []},
+                                       'pm': {'b': V('i1')}, 'cm': []},
+               'params': {'i1': '3'}, 'pad': '1', 'src': 'capture', 'shapes': []})
+    cs.append({'kind': 'pulse', 'pt': {'k': 'map', 'b': {'k': 'arithl', 'b': inner, 'op': '*', 's': {'all': V('a')}},
+                                       'pm': {'a': V('i1')}, 'cm': []},
+               'params': {'i1': '2'}, 'pad': '1', 'src': 'capture', 'shapes': []})
     # control: the same shape with a different outer name is fine
     cs.append({'kind': 'pulse', 'pt': {'k': 'map', 'b': inner, 'pm': {'a': V('b')}, 'cm': []}, 'params': {'b': '2'}, 'pad': '1',
                'src': 'capture-control', 'shapes': []})
     return cs
+
+
+def innerd_v():
+    return {'k': 'for', 'i': 'i1', 'start': C(0), 'stop': C(3), 'step': C(1),
+            'b': {'k': 'const', 'd': add(mul(V('i1'), V('T')), C(1)), 'vals': {'A': V('i1')}}}
 
 
 def mapping_captures(t, env):
@@ -1277,8 +1296,196 @@ def mapping_captures(t, env):
     return False
 
 
+ZERO_COUNT_RANGES = [(3, 3, 1), (3, 3, -2), (3, 2, 2), (2, 4, -3), (0, 0, 1), (1, 0, 3), (-1, -1, 2), (0, 1, -2)]
+MINUS_ONE_COUNT_RANGES = [(3, 2, 1), (2, 3, -1), (3, 1, 2), (0, 3, -3)]
+ONE_COUNT_RANGES = [(3, 4, 1), (3, 4, 5), (3, 2, -1), (2, 1, -3)]
+
+
+def zero_count_family(tier='thorough'):
+    """round 4 (class of seed C07-5): for-loop ranges whose iteration count ceiling((stop - start)/step) is EXACTLY 0 - a
+    zero span (start == stop, either step sign) or a backwards span shorter than one step - next to the neighbours with
+    count exactly -1 and exactly 1; numeric bounds (the Piecewise collapses at construction) and symbolic bounds; bodies
+    whose integral / duration at i = start is non-zero (also for start = 0); bare and under the loop-carrying wrappers.
+    `integral` and `duration` carry the same case distinction (count <= 0) in two places that must stay in sync."""
+    cs = []
+    body_v = {'k': 'const', 'd': C(F(1, 2)), 'vals': {'A': add(mul(V('i1'), V('a')), C(1))}}
+    body_d = {'k': 'const', 'd': add(mul(V('i1'), V('i1')), C(1)), 'vals': {'A': add(V('i1'), V('a'))}}
+    nth = 0
+    for group, ranges in (('zero', ZERO_COUNT_RANGES), ('minus-one', MINUS_ONE_COUNT_RANGES), ('one', ONE_COUNT_RANGES)):
+        for a, o, s in ranges:
+            for sym in ('numeric', 'symbolic', 'start-symbolic'):
+                for bi, body in enumerate((body_v, body_d)):
+                    for w in WRAPPERS:
+                        nth += 1
+                        if tier == 'quick':
+                            # zero count: numeric and symbolic bounds, bodies alternating, bare + one rotating wrapper;
+                            # neighbours: symbolic, bare, bodies alternating
+                            if sym == 'start-symbolic' or bi != (a + o + (sym == 'symbolic')) % 2:
+                                continue
+                            if group == 'zero':
+                                if w != 'bare' and w != WRAPPERS[1 + (a * 7 + o * 3 + s + (sym == 'symbolic')) % (len(WRAPPERS) - 1)]:
+                                    continue
+                            elif w != 'bare' or sym != 'symbolic':
+                                continue
+                        params = {'a': '3/4'}
+                        if sym == 'numeric':
+                            st, sp, se = C(a), C(o), C(s)
+                        elif sym == 'symbolic':
+                            st, sp, se = V('n'), V('m'), V('k')
+                            params.update(n=str(a), m=str(o), k=str(s))
+                        else:
+                            st, sp, se = V('n'), C(o), C(s)
+                            params.update(n=str(a))
+                        loop = {'k': 'for', 'i': 'i1', 'start': st, 'stop': sp, 'step': se, 'b': body}
+                        t, extra = _wrap(w, loop, False)
+                        params.update(extra)
+                        cs.append({'kind': 'pulse', 'pt': t, 'params': used_params(t, params), 'pad': '1',
+                                   'shapes': sorted(set(range_shape(a, o, s))) + ['count:' + group],
+                                   'src': 'loop-count-%s:%s' % (group, sym)})
+    return cs
+
+
+def td_scalar_ends_family(tier='thorough'):
+    """round 4 (class of seed C07-6): ArithmeticPT whose scalar operand depends on the time t and takes DIFFERENT values
+    at t = 0 and t = duration, every operator (+ - * and, template / scalar only, /) x both operand orders x single
+    expression / per-channel mapping x constant / polynomial / table atom with a non-zero end voltage; bare, as the last
+    / first part of a sequence, as the body of a for-loop (scalar slope = loop index) and of a repetition.  initial_values
+    must use the scalar at 0, final_values at the duration (two code paths that look alike).  `/`: the integral is
+    transcendental (log), only duration, initial and final values are observed (`noint`); Python oracle."""
+    cs = []
+    nth = 0
+    for op in ('+', '-', '*', '/'):
+        for side in ('arithl', 'arithr'):
+            if op == '/' and side == 'arithr':
+                continue                    # scalar / template is rejected by the constructor
+            for sk in ('allt', 'mapt'):
+                for ik in ('const', 'func', 'table'):
+                    for w in ('bare', 'seq-last', 'seq-first', 'for', 'rep'):
+                        nth += 1
+                        if tier == 'quick':
+                            # bare: every (operator, order, scalar kind) once, atoms rotating; wrappers: every
+                            # (operator, wrapper) once, order / scalar kind / atom rotating
+                            combo = ('+', '-', '*', '/').index(op) * 4 + (side == 'arithr') * 2 + (sk == 'mapt')
+                            ikn = ('const', 'func', 'table').index(ik)
+                            wn = ('bare', 'seq-last', 'seq-first', 'for', 'rep').index(w)
+                            if w == 'bare':
+                                if ikn != combo % 3:
+                                    continue
+                            elif (combo + wn) % 4 != 0 or ikn != (combo // 4 + wn) % 3:
+                                continue
+                        # durations / slopes such that the scalar is a power of two at both ends when it divides
+                        d = C(3) if op == '/' else C(2)
+                        chans = ['A'] if ik == 'func' else ['A', 'B']
+                        if ik == 'const':
+                            inner = {'k': 'const', 'd': d, 'vals': {c: C(F(3, 2) + i) for i, c in enumerate(chans)}}
+                        elif ik == 'func':
+                            inner = {'k': 'func', 'c': 'A', 'd': d, 'coef': [C(1), C(F(1, 2))]}
+                        else:
+                            inner = {'k': 'table', 'ch': {c: [[C(0), C(1 + i), 'hold'], [['/', d, C(2)], C(-1), 'linear'],
+                                                              [d, C(2 + i), 'linear']] for i, c in enumerate(chans)}}
+                        slope = V('i1') if w == 'for' else C(1)
+                        cf = [C(1), slope]
+                        sc = {'allt': cf} if sk == 'allt' else {'mapt': {chans[-1]: cf}}
+                        t = {'k': side, 'b': inner, 'op': op, 's': sc}
+                        tail = {'k': 'const', 'd': C(1), 'vals': {c: C(F(1, 2)) for c in chans}}
+                        if w == 'seq-last':
+                            t = {'k': 'seq', 'ps': [tail, t]}
+                        elif w == 'seq-first':
+                            t = {'k': 'seq', 'ps': [t, tail]}
+                        elif w == 'for':
+                            t = {'k': 'for', 'i': 'i1', 'start': C(0), 'stop': C(2), 'step': C(1), 'b': t}
+                        elif w == 'rep':
+                            t = {'k': 'rep', 'n': C(2), 'b': t}
+                        case = {'kind': 'tdarith', 'pt': t, 'params': {}, 'pad': '1', 'src': 'td-scalar-ends:' + op}
+                        if op == '/':
+                            case['noint'] = True
+                        cs.append(case)
+    return cs
+
+
+def range_mentions_index_family():
+    """round 4: the RANGE of a ForLoopPT refers to a parameter that has the loop index's own name (legal: the range is
+    evaluated outside the loop).  Second capture site of the former finding mapping-captures-loop-index: the closed form
+    substituted `start + i*step` under Sum(..., (i, ...)).  Outside Wf.wf (the model's loop_sum would capture as the old
+    code did): judged by the Python oracle (`extern`)."""
+    cs = []
+    body_v = {'k': 'const', 'd': C(1), 'vals': {'A': mul(V('i1'), V('a'))}}
+    body_d = {'k': 'const', 'd': add(V('i1'), C(1)), 'vals': {'A': V('i1')}}
+    for body in (body_v, body_d):
+        for st, sp, se in ((V('i1'), add(V('i1'), C(2)), C(1)), (C(0), V('i1'), C(1)), (V('i1'), C(0), C(-1)),
+                           (C(1), C(6), V('i1')), (V('i1'), mul(V('i1'), C(3)), V('i1'))):
+            loop = {'k': 'for', 'i': 'i1', 'start': st, 'stop': sp, 'step': se, 'b': body}
+            variants = [(loop, {'i1': '2', 'a': '3/4'}),
+                        ({'k': 'map', 'b': loop, 'pm': {'i1': add(V('n'), V('i1'))}, 'cm': []}, {'i1': '1', 'n': '1', 'a': '3/4'}),
+                        ({'k': 'for', 'i': 'i1', 'start': C(1), 'stop': C(4), 'step': C(1), 'b': loop}, {'a': '3/4'}),
+                        ({'k': 'seq', 'ps': [loop, {'k': 'const', 'd': C(1), 'vals': {'A': C(1)}}]}, {'i1': '2', 'a': '3/4'})]
+            for t, params in variants:
+                cs.append({'kind': 'pulse', 'pt': t, 'params': used_params(t, params), 'pad': '1', 'src': 'range-mentions-index',
+                           'shapes': [], 'extern': True})
+    return cs
+
+
+def coverage_families():
+    """round 4, coverage audit (VERIF_COVERAGE=1): input classes whose code paths inside the property's functions no
+    generated case reached: (1) a time dependent scalar over point / multi-channel / pulse-arithmetic / mapped atoms
+    (`_as_expression` of those classes feeds the integral), (2) composite templates INSIDE atomic ones (MappingPT /
+    ArithmeticPT as sub-template of AtomicMultiChannelPT / ArithmeticAtomicPT: their build_waveform), (3) python numbers
+    instead of strings as ConstantPT arguments, an explicitly declared AtomicMultiChannelPT duration, (4) pad_to called
+    with a callable, with pt_kwargs and with the current duration (`padx`)."""
+    cs = []
+
+    def case(pt, params, src, kind='pulse', **kw):
+        cs.append(dict({'kind': kind, 'pt': pt, 'params': params, 'pad': '1', 'src': src, 'shapes': []}, **kw))
+    tb = {'k': 'table', 'ch': {'B': [[C(0), C(1), 'hold'], [C(1), V('a'), 'linear'], [C(2), C(3), 'linear']]}}
+    cA = {'k': 'const', 'd': C(2), 'vals': {'A': V('a')}}
+    cA1 = {'k': 'const', 'd': C(2), 'vals': {'A': C(F(1, 2))}}
+    point = {'k': 'point', 'cs': ['A', 'B'], 'ents': [[C(0), {'vec': [C(1), C(2)]}, 'hold'], [C(2), {'vec': [C(3), V('a')]}, 'linear']]}
+    multi = {'k': 'multi', 'ps': [tb, cA]}
+    aatom = {'k': 'aatom', 'l': cA, 'op': '-', 'r': cA1}
+    mapped = {'k': 'map', 'b': tb, 'pm': {'a': add(V('a'), C(1))}, 'cm': [['B', 'A']]}
+    # (1)
+    for name, inner in (('point', point), ('multi', multi), ('aatom', aatom), ('map', mapped)):
+        chans = out_channels(inner)
+        for op in ('+', '-', '*'):
+            for sc in ({'allt': [C(1), C(1)]}, {'mapt': {chans[-1]: [C(0), C(F(1, 2))]}}):
+                side = 'arithr' if op == '-' and 'allt' in sc else 'arithl'
+                case({'k': side, 'b': inner, 'op': op, 's': sc}, {'a': '3/2'}, 'td-over-composite-atom:' + name, kind='tdarith')
+    # (2)
+    mB = {'k': 'map', 'b': tb, 'pm': {'a': mul(V('a'), C(2))}, 'cm': [['B', 'C']]}
+    arB = {'k': 'arithl', 'b': tb, 'op': '*', 's': {'all': V('a')}}
+    arB2 = {'k': 'arithr', 'b': tb, 'op': '-', 's': {'map': {'B': V('a')}}}
+    for sub in (mB, arB, arB2):
+        m = {'k': 'multi', 'ps': [sub, cA]}
+        case(m, {'a': '3/2'}, 'composite-inside-atomic', padx=True)
+        case({'k': 'for', 'i': 'i1', 'start': C(0), 'stop': C(3), 'step': C(1),
+              'b': {'k': 'map', 'b': m, 'pm': {'a': add(V('a'), V('i1'))}, 'cm': []}}, {'a': '3/2'}, 'composite-inside-atomic')
+    case({'k': 'aatom', 'l': {'k': 'map', 'b': tb, 'pm': {}, 'cm': [['B', 'A']]}, 'op': '+', 'r': cA}, {'a': '3/2'},
+         'composite-inside-atomic', padx=True)
+    case({'k': 'aatom', 'l': {'k': 'arithl', 'b': cA, 'op': '*', 's': {'all': C(2)}}, 'op': '-', 'r': cA1}, {'a': '3/2'},
+         'composite-inside-atomic')
+    # (3)
+    numc = {'k': 'const', 'd': C(2), 'vals': {'A': C(F(3, 2)), 'B': C(-1)}, 'num': True}
+    numh = {'k': 'const', 'd': C(F(1, 2)), 'vals': {'A': C(1)}, 'num': True}
+    case(numc, {}, 'numeric-arguments', padx=True)
+    case({'k': 'seq', 'ps': [numh, {'k': 'rep', 'n': C(3), 'b': numh}]}, {}, 'numeric-arguments', padx=True)
+    case({'k': 'arithl', 'b': numc, 'op': '*', 's': {'all': V('a')}}, {'a': '3/2'}, 'numeric-arguments')
+    case({'k': 'multi', 'ps': [tb, cA], 'dur': V('T')}, {'a': '3/2', 'T': '2'}, 'declared-duration', padx=True)
+    case({'k': 'multi', 'ps': [tb, cA], 'dur': C(2)}, {'a': '3/2'}, 'declared-duration')
+    case({'k': 'seq', 'ps': [{'k': 'multi', 'ps': [tb, cA], 'dur': mul(V('T'), C(2))}, {'k': 'multi', 'ps': [cA, tb]}]},
+         {'a': '3/2', 'T': '1'}, 'declared-duration')
+    # (4) on templates of every kind of duration (numeric / symbolic / loop sum)
+    sym = {'k': 'const', 'd': V('T'), 'vals': {'A': V('a')}}
+    case(sym, {'a': '3/2', 'T': '2'}, 'pad-variants', padx=True)
+    case({'k': 'for', 'i': 'i1', 'start': C(1), 'stop': C(4), 'step': C(1),
+          'b': {'k': 'const', 'd': V('i1'), 'vals': {'A': mul(V('i1'), V('a'))}}}, {'a': '3/2'}, 'pad-variants', padx=True)
+    case({'k': 'par', 'b': tb, 'ov': {'A': [C(0), C(1)]}}, {'a': '3/2'}, 'pad-variants', padx=True)
+    case({'k': 'arithl', 'b': cA, 'op': '+', 's': {'allt': [C(0), C(1)]}}, {'a': '3/2'}, 'pad-variants', kind='tdarith', padx=True)
+    return cs
+
+
 def gen_cases(rng, tier, ctx):
     cases = handmade() + blind_class_families(tier) + capture_family()
+    cases += zero_count_family(tier) + td_scalar_ends_family(tier) + range_mentions_index_family() + coverage_families()
     if tier == 'quick':
         cases += shared_body_forests(rng, 2)
         pairs = exhaustive_pair_forests(rng)
@@ -1289,7 +1496,7 @@ def gen_cases(rng, tier, ctx):
         nf = 400
     for k in range(nf):
         cases += random_forest(rng, 2 if k % 3 == 0 else 3)
-    n = {'quick': 300, 'thorough': 4000}[tier]
+    n = {'quick': 220, 'thorough': 4000}[tier]
     if tier == 'quick':
         sweep = [c for c in range_sweep(3) if rng.random() < 0.4]
         sweep += [c for c in range_sweep(4, -4, WRAPPERS[1:]) if rng.random() < 0.012]
